@@ -29,8 +29,10 @@ ASSUMPTIONS = ["real MOSEK cannot be run offline: statements about the MOSEK bac
 
 @st.composite
 def _case(draw):
-    kind = draw(st.sampled_from(["std", "std", "std", "lmi_order", "lmi_order", "autostat", "big"]))
-    if kind == "std":
+    kind = draw(st.sampled_from(["std", "std", "std", "lmi_order", "lmi_order", "autostat", "big", "wild", "wild"]))
+    if kind == "wild":
+        m = draw(gen.wild_model(max_len=12))
+    elif kind == "std":
         m = draw(gen.model(max_steps=3, allow_nonsym_lmi=True))
     elif kind == "lmi_order":
         m = draw(gen.model_lmi_order())
